@@ -303,6 +303,36 @@ def r4(chk, prog):
     c08.last_arg_rule(chk, prog, 'R4')
 
 
+def r5_clear_once(chk, prog):
+    """"clear before assign" is a one-shot request: the first assign() of an evaluation clears the defaults (if there
+    are any) and ALWAYS disarms the flag - otherwise a later assign() of the same evaluation wipes the values that
+    were just read.  In every assign() that tests mClearB4Assign, every path on which the flag is set reaches
+    mClearB4Assign = false before the function returns."""
+    n = 0
+    for f in prog.functions:
+        if f.short != 'assign' or f.body is None or not (f.cls or '').startswith('celma::prog_args::detail::TypedArg<'):
+            continue
+        if not any(x.get('k') == 'MemberExpr' and x.get('ref', {}).get('name') == 'mClearB4Assign' for x in f.walk()):
+            continue
+        n += 1
+        cfg = f.cfg
+        resets = [x for x in f.walk() if x.get('k') == 'BinaryOperator' and x.get('op') == '=' and
+                  field_name(children(x)[0]) == 'mClearB4Assign' and
+                  strip_all_casts(children(x)[1]).get('val', children(x)[1].get('cv')) in (0, False)]
+
+        def flag(c):
+            c = strip_all_casts(c)
+            return c.get('k') == 'MemberExpr' and c.get('ref', {}).get('name') == 'mClearB4Assign'
+        off_edges = exempt_edges(f, flag, False)       # edges taken when the flag is not set
+        bad = cfg.can_reach_exit(cfg.entry_pos(), lambda p, e: isinstance(e, int) and f.node(e) is not None and
+                                 f.node(e) in resets, blocked_edges=off_edges) if resets else [0]
+        tag = (f.cls or '').replace('celma::prog_args::detail::', '')[:80]
+        chk.check(bool(resets) and not bad, 'R5', f.name, 'a pending "clear before assign" is disarmed by the first '
+                  'assign(), whatever the destination contains [%s]' % tag, f.loc(),
+                  'a return is reachable with the flag still set' if resets else 'the flag is never reset')
+    chk.require(n >= 4, 'assign() implementations that use mClearB4Assign: %d' % n)
+
+
 def run(chk):
     prog, units = rules.prog_args_program()
     chk.units = units
@@ -322,3 +352,5 @@ def run(chk):
     r2(chk, prog)
     r3(chk, prog)
     r4(chk, prog)
+    chk.rule('R5', 'a pending "clear before assign" is a one-shot request', 4)
+    r5_clear_once(chk, prog)
